@@ -263,3 +263,13 @@ def run(chk):
            'for every admissible argument count', min_instances=20)
   from rules.c09 import template_tables
   template_tables(chk, 'C20-R4', only_engine='sqlite')
+  fi = repo.func('expr_translate.QL.__init__')
+  for attr in ('built_in_infix_operators', 'built_in_functions'):
+    ok = False
+    for x in walk_local(fi.node):
+      if isinstance(x, ast.Assign) and dotted(x.targets[0]) == 'self.' + attr:
+        ok = isinstance(x.value, ast.Call) and call_tail(x.value) in ('deepcopy', 'dict', 'copy')
+    chk.ob('C20-R4', ok, None, 'SQLite templates start from a private copy (QL.%s)' % attr,
+           'the per-dialect overrides are written into a table shared by all QL '
+           'instances: after compiling for another engine in the same process '
+           'SQLite built-ins get that engine\'s templates', fi=fi)
